@@ -10,9 +10,13 @@ CHECKS = {
    text="All clauses proved in Coq for every process count, start and stop (no size bound): contiguity, abutment, "
         "balance (sizes differ by <= 1), exactly-one-block membership, concatenation of blocks = serial range, empty and "
         "short ranges, sum-reduction = serial fold in every monoid; list/array helpers as corollaries; refutation "
-        "witnesses for the two defects of the pinned tree (both repaired by fix: commits). The model is tied to the code "
+        "witnesses for the two defects of the pinned tree (both repaired by fix: commits). Parallel regions: every well-nested "
+        "sequence of start/finish_parallel_region never raises and moves level and region counter with the nesting depth, a "
+        "balanced block restores the configuration exactly, so the helpers hand out the partition exactly at nesting depth 1 "
+        "(also after nested regions were opened and closed) and the whole range elsewhere. The model is tied to the code "
         "by an exhaustive grid (all ranks) compared inside Coq with exact integers, plus direct monitors of the property "
-        "on the implementation's outputs and an end-to-end rank-simulated run of the Redfield rate kernel.",
+        "on the implementation's outputs, region histories and nested programs run on real DistributedConfiguration objects by "
+        "every simulated rank, and an end-to-end rank-simulated run of the Redfield rate kernel.",
    note=TB + "All C20 theorems are closed under the global context. MPI transport is not modelled (a rank is a stub "
         "DistributedConfiguration).",
    design="7/C20", technique="Coq proof (lia/nia + induction over ranks) + _calculate_ranges regenerated from the source by a translator with a machine-checked equivalence lemma + exhaustive in-Coq correspondence"),
@@ -27,7 +31,7 @@ CHECKS = {
         "bound / 1e-9 - the exponential itself is an oracle.",
    note=TB + "All C17 theorems are closed under the global context. Tie: random set_rate histories compared exactly in Coq; "
         "propagation compared with the model over exact rationals within 1e-11.",
-   design="7/C17", technique="Coq proof (ring/induction over op histories and Taylor loop) + in-Coq differential correspondence"),
+   design="7/C17", technique="Coq proof (ring/induction over op histories and Taylor loop) + in-Coq differential correspondence + statement-level translator (set_rate and the _propagate_short_exp loop nest regenerated from the source, equivalence lemmas re-proved every run)"),
  "C19": dict(
    text="Proved in Coq for every history (induction over op lists, data in any commutative ring): whatever is readable at the end "
         "(total, signals, processes, types, per level of the store) equals the sum of the accepted additions belonging to it, "
@@ -61,8 +65,8 @@ CHECKS = {
         "reorganisation energies higher ADOs stay zero and ADO 0 obeys the closed-system equation. Validated only: convergence "
         "with depth to exp(-i w t - g(t)) for uncoupled sites and the closed-system limit against expm.",
    note=TB + "All C16 theorems closed under the global context. Tie: tables of real KTHierarchy objects compared exactly in Coq; "
-        "right-hand sides compared exactly on Gaussian-integer inputs.",
-   design="7/C16", technique="Coq proof (induction over levels, NoDup/sortedness of the table, ring algebra for the RHS) + exact in-Coq correspondence"),
+        "right-hand sides compared exactly on Gaussian-integer inputs. Static tie: harness/translate2.py (template unification, fail-closed) joins the trusted base.",
+   design="7/C16", technique="Coq proof (induction over levels, NoDup/sortedness of the table, ring algebra for the RHS) + exact in-Coq correspondence + statement-level translator (generate_indices, _make_nmp1, _make_Gamma, _convert_2_matrix and the propagate() loop nest regenerated from the source, equivalence lemmas re-proved every run)"),
  "C05": dict(
    text="Proved in Coq: over the rationals and for arbitrary non-zero conversion factors, a value supplied under u and read under v "
         "is the exact conversion for all 11x11 pairs incl. the reciprocal 'nm' handling; round trip; composition; array elements "
@@ -235,7 +239,7 @@ CHECKS = {
         "and without Lorentzian dephasing): identity, semigroup, trace/Hermiticity, apply vs propagate. Gaussian dephasing and "
         "time-dependent tensors (recomputed per interval; the semigroup clause is stated for time-independent generators) are not part "
         "of this check; apply(time='all') raises AttributeError in the package (noted, outside the property).",
-   design="7/C08", technique="Coq proof (tensor algebra under tensordot, relational induction transferring the Taylor loop from states to tensors) + in-Coq differential correspondence in exact rational arithmetic"),
+   design="7/C08", technique="Coq proof (tensor algebra under tensordot, relational induction transferring the Taylor loop from states to tensors) + in-Coq differential correspondence in exact rational arithmetic + statement-level translator (elemental step, dense contraction loop and remaining-steps loop regenerated from the source, equivalence lemmas re-proved every run)"),
  "C12": dict(
    text="Proved in Coq over any commutative ring and for every line-shape function: the orientational prefactor F4e.M4.F4n is "
         "invariant under a common orthogonal transformation of all four dipoles or of all four polarisations (improper ones "
